@@ -1,5 +1,5 @@
 import Invoke.Lemmas.ProgramParse
-import Invoke.Lemmas.ProgramPlacementF
+import Invoke.Lemmas.ProgramPlacementI
 import Invoke.Lemmas.SpellCheck
 import Invoke.Generated.Program
 /-! # C18 — core options mean the same anywhere; task tokens and the remainder stay intact
@@ -18,13 +18,17 @@ correspondence through the real `Program`, see `harness/props/c18.py`):
       (programParse core reg (s ++ flat calls)).map effect = (programParse core reg (insert s at (k, j))).map effect
       where effect r = (overrides r.core, r.tasks)
 
-What IS proved: the single-step content of that statement for every machine state "between items"
-(`core_flag_placement_invariant_partial`, `core_value_flag_placement_partial`): the token sets exactly the same
-core argument to exactly the same value as it does in the core context, and touches neither the current task
-context nor the finished ones nor the unparsed list — for ANY task signature, including tasks with still
-missing positionals (DESIGN §4 #27).  Missing for the full theorem: the induction over the remaining items
-(commutation of the core-argument update with every later step), glued/`=`/combined spellings through `presplit`
-(#9) and `updateCore`.  Concrete instances of the full statement are checked by `decide` below. -/
+What IS proved (whole argv, admissible chains of calls in the sense of C01, the core item between two items of ANY call):
+Boolean core flags (`core_flag_placement_invariant_partial2(_later)`), value-taking core flags in every spelling — spaced,
+`=`, glued (`core_value_flag_placement_partial3(_later)`), combined blocks of Boolean core letters
+(`core_bool_block_placement_partial2`) and with a value letter last (`core_block_with_value_placement`), the general
+expansion of ANY short block into its letters in order (`short_block_expands_in_order` and its parse/program corollaries),
+core OPTIONAL-value flags given with a value (`core_optional_value_flag_placement`) and bare when followed by a Boolean
+core flag (`core_optional_bare_then_core_flag_placement`); the single-step content for every machine state "between
+items" (`…_partial`), for ANY task signature, including tasks with still missing positionals (DESIGN §4 #27).
+Still missing for the full theorem: `help`; a bare optional core flag followed by a flag of the task or by the end of the
+command line (machine level only, `core_optional_bare_tied_off_partial`); call positions right after a bare optional flag
+of the task for some of the item kinds (see each statement).  Concrete instances of the full statement are checked by `decide` below. -/
 namespace Inv
 open M
 
@@ -364,6 +368,246 @@ theorem core_bool_block_placement_partial2 (ic ic' : Ctx) (reg : List Ctx) (call
       hcore hcore0 hbodyA hbodyB
     exact ⟨_, _, hA, hB, hview, overrides_view _ _ hview, rfl, rfl, rfl⟩
 
+/-! ## A combined short block is processed exactly like its letters in order -/
+
+/-- SHORT BLOCKS EXPAND IN ORDER (general: any machine state, any length, any letters — Boolean or value-taking, of the task,
+    of the core, or unknown).  Wherever the token loop splits `-xyz…` at all (`SplitsAsBlock`: nothing unparsed yet, the
+    split is not rolled back, `-x` is not a value-taking flag there), the rest of the command line is processed exactly
+    as if the letters had been written one by one, in the order written: `… -xyz …` ≡ `… -x -y -z …`. -/
+theorem short_block_expands_in_order (m0 : M) (a b : List Tok) (x : Char) (ys : List Char) (hx : x ≠ '-') (hys : ys ≠ [])
+    (hne : hasEq ('-' :: x :: ys) = false) (hs : ∀ m1, runToks m0 a = .ok m1 → SplitsAsBlock m1 x) :
+    runToks m0 (a ++ ('-' :: x :: ys) :: b) = runToks m0 (a ++ (blockPieces x ys ++ b)) :=
+  short_block_expands_in_list m0 a b x ys hx hys hne hs
+
+/-- the same for `parse_argv` of ANY parser (contexts, unparsed tokens, remainder and errors all equal) -/
+theorem parse_block_expands_in_order (initial : Option Ctx) (registry : List Ctx) (ign : Bool) (a b : List Tok) (x : Char)
+    (ys : List Char) (hx : x ≠ '-') (hys : ys ≠ []) (hy : '-' ∉ ys) (hne : hasEq ('-' :: x :: ys) = false)
+    (ha : ∀ t ∈ a, t ≠ ['-', '-'])
+    (hs : ∀ m0 m1, M.enter { initial := initial, cur := none, registry := registry, ignoreUnknown := ign } = .ok m0 →
+      runToks m0 a = .ok m1 → SplitsAsBlock m1 x) :
+    parseArgv initial registry ign (a ++ ('-' :: x :: ys) :: b) = parseArgv initial registry ign (a ++ (blockPieces x ys ++ b)) :=
+  parseArgv_block_expands initial registry ign a b x ys hx hys hy hne ha hs
+
+/-- … for the two-pass `Program` parse, block BEFORE the tasks (the whole result is equal) -/
+theorem program_block_expands_before_tasks (ic : Ctx) (reg : List Ctx) (a b : List Tok) (x : Char) (ys : List Char)
+    (hx : x ≠ '-') (hys : ys ≠ []) (hy : '-' ∉ ys) (hne : hasEq ('-' :: x :: ys) = false) (ha : ∀ t ∈ a, t ≠ ['-', '-'])
+    (hs : ∀ m0 m1, M.enter (M.start (some ic) [] true) = .ok m0 → runToks m0 a = .ok m1 → SplitsAsBlock m1 x) :
+    programParse ic reg (a ++ ('-' :: x :: ys) :: b) = programParse ic reg (a ++ (blockPieces x ys ++ b)) :=
+  program_block_expands_core ic reg a b x ys hx hys hy hne ha hs
+
+/-- … and block INSIDE a task's argument list, anywhere after the first task name (`ProgResult.eff` = core context, task
+    contexts, remainder; only the verbatim `unparsed` list differs, it holds the spelling as written) -/
+theorem program_block_expands_inside_task (ic ic' : Ctx) (reg : List Ctx) (ctoks : List Tok) (tname : Tok) (mid post : List Tok)
+    (x : Char) (ys : List Char) (hx : x ≠ '-') (hys : ys ≠ []) (hy : '-' ∉ ys) (hne : hasEq ('-' :: x :: ys) = false)
+    (hc0 : CoreStep0 ic ic' ctoks) (hmiss0 : ic.missingPositional = []) (hnf : isFlag tname = false)
+    (hf : assoc? tname ic'.flags = none) (hi : assoc? tname ic'.inverse = none) (hmiss : ic'.missingPositional = [])
+    (hbody : ∀ t ∈ ctoks ++ tname :: (mid ++ post), t ≠ ['-', '-'])
+    (hs : ∀ m0 m1, M.enter (M.start (some ic) reg false) = .ok m0 → runToks m0 (tname :: mid) = .ok m1 → SplitsAsBlock m1 x) :
+    (programParse ic reg (ctoks ++ tname :: (mid ++ ('-' :: x :: ys) :: post))).map ProgResult.eff =
+      (programParse ic reg (ctoks ++ tname :: (mid ++ (blockPieces x ys ++ post)))).map ProgResult.eff :=
+  program_block_expands_in_task ic ic' reg ctoks tname mid post x ys hx hys hy hne hc0 hmiss0 hnf hf hi hmiss hbody hs
+
+/-- PLACEMENT OF A BLOCK WITH A VALUE LETTER LAST, WHOLE ARGV.  `-x…z v` where `x…` are Boolean core flags and `z` is a
+    value-taking core flag (`BlockValue`; none declared by the task), between two items of ANY call of an admissible chain —
+    also directly after a bare optional-value flag of the task — means the same as before all tasks: same task contexts, same
+    observable core values, same overrides.  (`short_block_with_value_flag_last` is the instance `-epT 5` / `-ewpT 5`.) -/
+theorem core_block_with_value_placement (ic ic1 : Ctx) (reg : List Ctx) (calls1 : List Call) (k : Call) (pre post : List Item)
+    (calls2 : List Call) (x : Char) (ys : List Char) (bps : List Tok) (vtok v : Tok) (i : Nat) (a a' : Arg)
+    (hk : k.items = pre ++ post) (hok : ChainOK (some ic) reg (some ic) (calls1 ++ k :: calls2))
+    (hb : BlockValue reg k.ctx ic ic1 x ys bps vtok v i a a')
+    (hfresh : ∀ b ∈ ic.args, b.takesValue = false → b.gotValue = false ∧ b.spec.kind ≠ .list)
+    (hfv : ∀ o, ic.args[i]? = some o → o.gotValue = false ∧ o.spec.kind ≠ .list)
+    (hpos : ic.positional = [])
+    (hbodyA : ∀ t ∈ calls1.flatMap Call.toks ++ argvWithCore k pre post ['-' :: x :: ys, v] calls2, t ≠ ['-', '-'])
+    (hbodyB : ∀ t ∈ ['-' :: x :: ys, v] ++ (calls1 ++ k :: calls2).flatMap Call.toks, t ≠ ['-', '-']) :
+    ∃ rA rB, programParse ic reg (calls1.flatMap Call.toks ++ argvWithCore k pre post ['-' :: x :: ys, v] calls2) = .ok rA ∧
+      programParse ic reg (['-' :: x :: ys, v] ++ (calls1 ++ k :: calls2).flatMap Call.toks) = .ok rB ∧
+      rA.core.view = rB.core.view ∧ overrides rA.core = overrides rB.core ∧
+      rA.tasks = (calls1 ++ k :: calls2).map Call.result ∧ rB.tasks = rA.tasks ∧ rA.remainder = rB.remainder := by
+  have htab := foldl_apply_tables pre k.ctx
+  have hb' : BlockValue reg (pre.foldl Item.apply k.ctx) ic ic1 x ys bps vtok v i a a' :=
+    { hb with pieces := BoolPieces.congr htab.1 htab.2 hb.pieces
+              hcf := by rw [htab.1]; exact hb.hcf
+              hcinv := by rw [htab.2]; exact hb.hcinv
+              hvf := by rw [htab.1]; exact hb.hvf
+              hvinv := by rw [htab.2]; exact hb.hvinv }
+  have hcore := coreStepB_block_value hb'
+  have hcore0 := coreStep0_block_value hb'
+  obtain ⟨t1, t2, t3⟩ := hb.pieces.tables
+  have e1 : (ic1.setArg i a').flags = ic.flags := t1
+  have e2 : (ic1.setArg i a').inverse = ic.inverse := t2
+  have hmiss' : (ic1.setArg i a').missingPositional = [] := by
+    have : (ic1.setArg i a').positional = [] := by rw [← hpos]; exact t3
+    simp [Ctx.missingPositional, this]
+  have hview := updateCore_view_block_value hb hfresh hfv
+  cases calls1 with
+  | nil =>
+    obtain ⟨hA, hB⟩ := program_with_core ic (ic1.setArg i a') reg k pre post calls2 ['-' :: x :: ys, v] e1 e2 hmiss' hk hok hcore hcore0
+      (by simpa using hbodyA)
+    exact ⟨_, _, hA, hB, hview, overrides_view _ _ hview, rfl, rfl, rfl⟩
+  | cons k0 r0 =>
+    obtain ⟨hA, hB⟩ := program_with_core_later ic (ic1.setArg i a') reg k0 r0 k pre post calls2 ['-' :: x :: ys, v] e1 e2 hmiss' hk hok
+      hcore hcore0 hbodyA hbodyB
+    exact ⟨_, _, hA, hB, hview, overrides_view _ _ hview, rfl, rfl, rfl⟩
+
+/-! ### Core OPTIONAL-value flags (`-l [STRING]`, `--list`; `-h [STRING]` is the `help` special case and stays excluded) -/
+
+/-- PLACEMENT, CORE OPTIONAL-VALUE FLAG GIVEN WITH A VALUE, EVERY SPELLING, WHOLE ARGV, ANY CALL.  `--list=sub`, `-l=sub`,
+    `-lsub`, `--list sub` (`CoreValSpelling`; the statement does not ask whether the value is optional, so it covers the
+    plain value flags too) between two items of ANY call of an admissible chain means the same as before all tasks, when
+    the value `v` is an ordinary word: not flag-like, not a flag / inverse flag of the task or of the core, not a task name,
+    and every positional of the task is filled at that point (`hmissk`; these are exactly the conditions under which
+    `check_ambiguity` lets an optional value through — otherwise the parser raises "ambiguous", the documented rule). -/
+theorem core_optional_value_flag_placement (ic : Ctx) (reg : List Ctx) (calls1 : List Call) (k : Call) (pre post : List Item)
+    (calls2 : List Call) (tok v : Tok) (ctoks : List Tok) (i : Nat) (a a' : Arg)
+    (hsp : CoreValSpelling tok v ctoks)
+    (hk : k.items = pre ++ post) (hok : ChainOK (some ic) reg (some ic) (calls1 ++ k :: calls2))
+    (hcf : assoc? tok k.ctx.flags = none) (hcinv : assoc? tok k.ctx.inverse = none)
+    (hl : reg.find? (fun x => x.name = some tok || x.aliases.contains tok) = none)
+    (hvnf : isFlag v = false) (hvf : assoc? v k.ctx.flags = none) (hvinv : assoc? v k.ctx.inverse = none)
+    (hvf0 : assoc? v ic.flags = none) (hvinv0 : assoc? v ic.inverse = none)
+    (hvl : reg.find? (fun x => x.name = some v || x.aliases.contains v) = none)
+    (hmissk : (pre.foldl Item.apply k.ctx).missingPositional = [])
+    (hf : assoc? tok ic.flags = some i) (ha : ic.args[i]? = some a) (hh : a.spec.names.headD [] ≠ "help".toList)
+    (ht : a.takesValue = true) (hr0 : a.raw = none) (hkl : a.spec.kind ≠ .list)
+    (hfresh : a.gotValue = false) (hs : a.setValue (.s v) = .ok a') (hpos : ic.positional = [])
+    (hbodyA : ∀ t ∈ calls1.flatMap Call.toks ++ argvWithCore k pre post ctoks calls2, t ≠ ['-', '-'])
+    (hbodyB : ∀ t ∈ ctoks ++ (calls1 ++ k :: calls2).flatMap Call.toks, t ≠ ['-', '-']) :
+    ∃ rA rB, programParse ic reg (calls1.flatMap Call.toks ++ argvWithCore k pre post ctoks calls2) = .ok rA ∧
+      programParse ic reg (ctoks ++ (calls1 ++ k :: calls2).flatMap Call.toks) = .ok rB ∧
+      rA.core.view = rB.core.view ∧ overrides rA.core = overrides rB.core ∧
+      rA.tasks = (calls1 ++ k :: calls2).map Call.result ∧ rB.tasks = rA.tasks ∧ rA.remainder = rB.remainder := by
+  obtain ⟨s1, s2, s3⟩ := Arg.setValue_settled a a' (.s v) true (by simp) hs
+  have htab := foldl_apply_tables pre k.ctx
+  have hmiss0 : ic.missingPositional = [] := by simp [Ctx.missingPositional, hpos]
+  have hcore : CoreStepB ic (ic.setArg i a') reg (pre.foldl Item.apply k.ctx) ctoks :=
+    coreStepB_optvalue ic reg _ tok v ctoks i a a' hsp (by rw [htab.1]; exact hcf) (by rw [htab.2]; exact hcinv) hl hvnf
+      (by rw [htab.1]; exact hvf) (by rw [htab.2]; exact hvinv) hvf0 hvl hmissk hf ha hh ht hr0 hs
+  have hcore0 : CoreStep0 ic (ic.setArg i a') ctoks :=
+    coreStep0_optvalue ic tok v ctoks i a a' hsp hvnf hvf0 hvinv0 hmiss0 hf ha ht hr0 hs
+  have hmiss' : (ic.setArg i a').missingPositional = [] := by
+    simp [Ctx.missingPositional, Ctx.setArg, hpos]
+  have hga' : a'.gotValue = true := by
+    have : ¬ a'.spec.kind = .list := by rw [s1]; exact hkl
+    simp [Arg.gotValue, this, s3]
+  have hview := updateCore_view ic i a a' ha s1 hfresh hga' s3
+  cases calls1 with
+  | nil =>
+    obtain ⟨hA, hB⟩ := program_with_core ic (ic.setArg i a') reg k pre post calls2 ctoks rfl rfl hmiss' hk hok hcore hcore0
+      (by simpa using hbodyA)
+    exact ⟨_, _, hA, hB, hview, overrides_view _ _ hview, rfl, rfl, rfl⟩
+  | cons k0 r0 =>
+    obtain ⟨hA, hB⟩ := program_with_core_later ic (ic.setArg i a') reg k0 r0 k pre post calls2 ctoks rfl rfl hmiss' hk hok
+      hcore hcore0 hbodyA hbodyB
+    exact ⟨_, _, hA, hB, hview, overrides_view _ _ hview, rfl, rfl, rfl⟩
+
+/-- PLACEMENT, BARE CORE OPTIONAL-VALUE FLAG FOLLOWED BY A BOOLEAN CORE FLAG, WHOLE ARGV, ANY CALL.  `-l -e`, `--list --echo`:
+    the optional flag `tok` (index `i`, not `help`, not a list) given bare and directly followed by a DIFFERENT Boolean core
+    flag token `t2` (index `j`), neither declared by the task nor a task name, between two items of ANY call at a point where
+    every positional of the task is filled, means the same as the two tokens before all tasks: the optional flag gets its
+    "given without a value" value `ab` (= `set_value(True, cast=False)`), the Boolean flag is set.
+
+    WHAT STAYS EXCLUDED for the bare form (everything else about it is the lemma level, see below):
+    * bare `-l` followed by a NON-flag token — the documented ambiguity: inside a task the token is taken as the value unless it
+      is a task name or a positional is missing ("ambiguous" error), before the tasks `-l t1` takes `t1` as the value;
+    * bare `-l` followed by a flag OF THE TASK, and bare `-l` as the very last token: the machine is tied off exactly as here
+      (`core_optional_bare_tied_off_partial`), but the whole-argv statement is not proved — and it has no "before all tasks"
+      twin of the same length, since `-l t1 …` is the previous case;
+    * bare `-l` followed by a core VALUE flag, a block or an `=` form: `coreStep_optbare_then` covers every core item that
+      starts with an unsplit core flag token, the whole-argv corollary is stated for the Boolean case only. -/
+theorem core_optional_bare_then_core_flag_placement (ic : Ctx) (reg : List Ctx) (calls1 : List Call) (k : Call)
+    (pre post : List Item) (calls2 : List Call) (tok t2 : Tok) (i j : Nat) (a ab a2 a2' : Arg)
+    (hk : k.items = pre ++ post) (hok : ChainOK (some ic) reg (some ic) (calls1 ++ k :: calls2))
+    (hun : Unsplit tok) (hcf : assoc? tok k.ctx.flags = none) (hcinv : assoc? tok k.ctx.inverse = none)
+    (hl : reg.find? (fun x => x.name = some tok || x.aliases.contains tok) = none)
+    (hf : assoc? tok ic.flags = some i) (ha : ic.args[i]? = some a) (hh : a.spec.names.headD [] ≠ "help".toList)
+    (ht : a.takesValue = true) (hr0 : a.raw = none) (ho : a.spec.optional = true) (hkl : a.spec.kind ≠ .list)
+    (hfresh : a.gotValue = false) (hs : a.setValue (.b true) false = .ok ab)
+    (hun2 : Unsplit t2) (h2cf : assoc? t2 k.ctx.flags = none) (h2cinv : assoc? t2 k.ctx.inverse = none)
+    (h2l : reg.find? (fun x => x.name = some t2 || x.aliases.contains t2) = none)
+    (h2f : assoc? t2 ic.flags = some j) (h2a : ic.args[j]? = some a2) (hji : j ≠ i)
+    (hh2 : a2.spec.names.headD [] ≠ "help".toList) (ht2 : a2.takesValue = false) (hkl2 : a2.spec.kind ≠ .list)
+    (hfresh2 : a2.gotValue = false) (hs2 : a2.setValue (.b true) = .ok a2')
+    (hmissk : (pre.foldl Item.apply k.ctx).missingPositional = []) (hpos : ic.positional = [])
+    (hbodyA : ∀ t ∈ calls1.flatMap Call.toks ++ argvWithCore k pre post [tok, t2] calls2, t ≠ ['-', '-'])
+    (hbodyB : ∀ t ∈ [tok, t2] ++ (calls1 ++ k :: calls2).flatMap Call.toks, t ≠ ['-', '-']) :
+    ∃ rA rB, programParse ic reg (calls1.flatMap Call.toks ++ argvWithCore k pre post [tok, t2] calls2) = .ok rA ∧
+      programParse ic reg ([tok, t2] ++ (calls1 ++ k :: calls2).flatMap Call.toks) = .ok rB ∧
+      rA.core.view = rB.core.view ∧ overrides rA.core = overrides rB.core ∧
+      rA.tasks = (calls1 ++ k :: calls2).map Call.result ∧ rB.tasks = rA.tasks ∧ rA.remainder = rB.remainder := by
+  obtain ⟨s1, s2, s3⟩ := Arg.setValue_settled a ab (.b true) false (by simp) hs
+  obtain ⟨q1, q2, q3⟩ := Arg.setValue_settled a2 a2' (.b true) true (by simp) hs2
+  have htab := foldl_apply_tables pre k.ctx
+  have hmiss0 : ic.missingPositional = [] := by simp [Ctx.missingPositional, hpos]
+  have haj : (ic.setArg i ab).args[j]? = some a2 := by simp [Ctx.setArg, List.getElem?_set_ne (Ne.symm hji), h2a]
+  have hcf' : assoc? tok (pre.foldl Item.apply k.ctx).flags = none := by rw [htab.1]; exact hcf
+  have hcinv' : assoc? tok (pre.foldl Item.apply k.ctx).inverse = none := by rw [htab.2]; exact hcinv
+  have h2cf' : assoc? t2 (pre.foldl Item.apply k.ctx).flags = none := by rw [htab.1]; exact h2cf
+  have h2cinv' : assoc? t2 (pre.foldl Item.apply k.ctx).inverse = none := by rw [htab.2]; exact h2cinv
+  have hstep : CoreStep (ic.setArg i ab) ((ic.setArg i ab).setArg j a2') reg (pre.foldl Item.apply k.ctx) [t2] :=
+    coreStep_bool (ic.setArg i ab) reg _ t2 j a2 a2' hun2 h2cf' h2cinv' h2l h2f haj hh2 ht2 hs2
+  have hstep0 : CoreStep0 (ic.setArg i ab) ((ic.setArg i ab).setArg j a2') [t2] :=
+    coreStep0_bool (ic.setArg i ab) t2 j a2 a2' hun2 h2f haj ht2 hs2
+  have hcore : CoreStepB ic ((ic.setArg i ab).setArg j a2') reg (pre.foldl Item.apply k.ctx) [tok, t2] :=
+    coreStepB_optbare_then ic _ reg _ tok t2 [] i j a ab a2 hun hcf' hcinv' hl hf ha hh ht hr0 ho hkl hs hun2 h2cf' h2cinv' h2l
+      h2f h2a hji hh2 hmissk hstep
+  have hcore0 : CoreStep0 ic ((ic.setArg i ab).setArg j a2') [tok, t2] :=
+    coreStep0_optbare_then ic _ tok t2 [] i j a ab hun hf ha ht hr0 ho hkl hs hun2 h2f hmiss0 hstep0
+  have hmiss' : ((ic.setArg i ab).setArg j a2').missingPositional = [] := by
+    simp [Ctx.missingPositional, Ctx.setArg, hpos]
+  have hview : (updateCore ic ((ic.setArg i ab).setArg j a2')).view = (updateCore ((ic.setArg i ab).setArg j a2') ic).view := by
+    apply zipWith_rel_view
+    apply ArgsRel.set _ _ j a2'
+    · apply ArgsRel.set _ _ i ab (ArgsRel.refl _)
+      intro o x ho' _ _
+      rw [ha] at ho'
+      have : o = a := (Option.some.inj ho').symm
+      subst this
+      refine Or.inr ⟨hfresh, s1, ?_, s3⟩
+      have : ¬ ab.spec.kind = .list := by rw [s1]; exact hkl
+      simp [Arg.gotValue, this, s3]
+    · intro o x ho' _ _
+      rw [h2a] at ho'
+      have : o = a2 := (Option.some.inj ho').symm
+      subst this
+      refine Or.inr ⟨hfresh2, q1, ?_, q3⟩
+      have : ¬ a2'.spec.kind = .list := by rw [q1]; exact hkl2
+      simp [Arg.gotValue, this, q3]
+  cases calls1 with
+  | nil =>
+    obtain ⟨hA, hB⟩ := program_with_core ic ((ic.setArg i ab).setArg j a2') reg k pre post calls2 [tok, t2] rfl rfl hmiss' hk hok hcore hcore0
+      (by simpa using hbodyA)
+    exact ⟨_, _, hA, hB, hview, overrides_view _ _ hview, rfl, rfl, rfl⟩
+  | cons k0 r0 =>
+    obtain ⟨hA, hB⟩ := program_with_core_later ic ((ic.setArg i ab).setArg j a2') reg k0 r0 k pre post calls2 [tok, t2] rfl rfl hmiss' hk hok
+      hcore hcore0 hbodyA hbodyB
+    exact ⟨_, _, hA, hB, hview, overrides_view _ _ hview, rfl, rfl, rfl⟩
+
+/-- BARE CORE OPTIONAL-VALUE FLAG FOLLOWED BY A FLAG OF THE TASK, OR BY THE END OF THE COMMAND LINE (partial).
+    FULL STATEMENT (not proved): for an admissible chain, `… k pre -l post …` with `post` empty-and-last or starting with a
+    flag-led item of the task parses to the task contexts of the chain and the core context `ic.setArg i ab`.
+    PROVED here, from ANY machine between two items of a task context `c` (`Ready m c`) after the bare flag token has been
+    handled (`core_opt_switch`): (1) a flag token `t2` of the task, not a task name, every positional of `c` filled, is handled
+    exactly as from the machine in which the optional flag has been tied off with `ab` and the core context is
+    `ic.setArg i ab` — a machine whose flag is settled, i.e. one the erasure lemma `settled_flag_is_inert` applies to; (2) the
+    end-of-input transition from both machines is the same.  MISSING: the step from "first handled piece" to whole task items
+    (`presplit`/`rollback` of a block or `=`/glued item with the core flag pending — `keepSplit` keeps the split because the
+    first piece is a flag of the context) and the chain plumbing of `program_with_core` for a step that is not a core item. -/
+theorem core_optional_bare_tied_off_partial (ic : Ctx) (reg : List Ctx) (c : Ctx) (t2 : Tok) (i : Nat) (a ab : Arg)
+    (m : M) (hr : Ready m c) (hi : m.initial = some ic) (hreg : m.registry = reg)
+    (ha : ic.args[i]? = some a) (hr0 : a.raw = none) (ho : a.spec.optional = true) (hkl : a.spec.kind ≠ .list)
+    (hs : a.setValue (.b true) false = .ok ab) :
+    Inert (m.withCore (ic.setArg i ab) (some (.initial, i)) false) ∧
+    ((assoc? t2 c.flags).isSome = true → reg.find? (fun x => x.name = some t2 || x.aliases.contains t2) = none →
+      c.missingPositional = [] →
+      ({ m with flag := some (.initial, i), flagGotValue := false } : M).handle t2 =
+        (m.withCore (ic.setArg i ab) (some (.initial, i)) false).handle t2) ∧
+    M.enter { ({ m with flag := some (.initial, i), flagGotValue := false } : M) with st := .end } =
+      M.enter { (m.withCore (ic.setArg i ab) (some (.initial, i)) false) with st := .end } :=
+  ⟨inert_withCore_optbare m ic i a ab .initial (Or.inl rfl) ha hkl hs,
+   fun h2cf h2l hmiss => core_optbare_next_taskflag ic reg c t2 i a ab m hr hi hreg h2cf h2l hmiss ha hr0 ho hs,
+   core_optbare_end ic i a ab m hi ha hr0 ho hs⟩
+
 /-- SHADOWING, WHOLE ARGV.  In a chain of calls admissible in the sense of C01 every flag token is, by `Item.ok`, a flag
     the TASK declares — also when the core context declares the same spelling (`-p`: `--pty` vs. the auto short flag
     of a parameter `pos`).  Then the task receives it (its context is exactly the C01 result) and the core context keeps
@@ -569,9 +813,8 @@ theorem short_block_read_in_its_own_context :
 /-- COMBINED SHORT BLOCKS WITH A VALUE FLAG LAST (real core table).  `-epT 5` is `-e -p -T 5` and `-ewpT 5` is
     `-e -w -p -T 5` — before the tasks and inside a task's argument list, all four with the same effect; the letters are
     handled in the order written (with the order of the inserted pieces reversed, `-T` would swallow `-p`).
-    NOT PROVED in general: "a block of Boolean letters followed by one value-taking letter is processed like its letters
-    in order" for arbitrary blocks and contexts — `core_bool_block_placement_partial2` covers all-Boolean blocks; the
-    mixed case is validated by the BLOCK family of `harness/props/c18.py` and by these instances. -/
+    These are INSTANCES of the general theorems `short_block_expands_in_order` / `program_block_expands_inside_task` (any
+    letters, any length) and `core_block_with_value_placement` (whole-argv placement of a block with a value letter last). -/
 theorem short_block_with_value_flag_last :
     effect (programParse coreCtx c18Reg (argvOf ["-epT", "5", "t1", "--flag"])) =
       effect (programParse coreCtx c18Reg (argvOf ["-e", "-p", "-T", "5", "t1", "--flag"])) ∧
@@ -753,4 +996,104 @@ example : (overrides coreCtx).pty = false ∧ plShadow.result.valueOf "pos".toLi
 /-- hypotheses of `settled_flag_is_inert`: a machine whose flag is a Boolean core flag that has been set -/
 example : Inert ((M.start (some coreCtx) c18Reg false).reflag none false) := inert_noflag _ rfl
 
+def plFlagCall : Call := { tname := "t1".toList, ctx := c18Reg.getD 1 (Ctx.empty none), items := [.toggle "--flag".toList 0] }
+
+/-- `core_block_with_value_placement` applied: `t1 -epT 5 --flag` vs `-epT 5 t1 --flag` (echo = 5, pty = 13, command-timeout = 0) -/
+example : ∃ rA rB,
+    programParse coreCtx c18Reg (argvOf ["t1", "-epT", "5", "--flag"]) = .ok rA ∧
+    programParse coreCtx c18Reg (argvOf ["-epT", "5", "t1", "--flag"]) = .ok rB ∧
+    overrides rA.core = overrides rB.core ∧ rB.tasks = rA.tasks :=
+  have hp : BoolPieces c18Reg plFlagCall.ctx coreCtx ["-e".toList, "-p".toList] _ :=
+    .cons 5 (coreCtx.args.getD 5 (Arg.init { names := [] })) _ (unsplitB_sound (by decide)) (by decide) (by decide) (by decide)
+      (by decide) (by decide) (by decide) (by decide) rfl
+      (.cons 13 (coreCtx.args.getD 13 (Arg.init { names := [] })) _ (unsplitB_sound (by decide)) (by decide) (by decide) (by decide)
+        (by decide) (by decide) (by decide) (by decide) rfl (.nil _))
+  have hb : BlockValue c18Reg plFlagCall.ctx coreCtx _ 'e' ['p', 'T'] ["-e".toList, "-p".toList] "-T".toList "5".toList 0
+      (coreCtx.args.getD 0 (Arg.init { names := [] })) _ :=
+    { hx := by decide, hys := by decide, hne := by decide, split := by decide, bne := by decide, pieces := hp,
+      vun := unsplitB_sound (by decide), hcf := by decide, hcinv := by decide, hl := by decide, hvf := by decide, hvinv := by decide,
+      hvf0 := by decide, hvinv0 := by decide, hf := by decide, ha := by decide, hh := by decide, ht := by decide, hr0 := by decide,
+      ho := by decide, hs := rfl }
+  have h := core_block_with_value_placement coreCtx _ c18Reg [] plFlagCall [] plFlagCall.items [] 'e' ['p', 'T'] _ _ _ 0 _ _ rfl
+    (chainOKb_sound _ (by decide)) hb (by decide) (by decide) (by decide) (noSentinelB_sound (by decide)) (noSentinelB_sound (by decide))
+  let ⟨rA, rB, h1, h2, _, h4, _, h6, _⟩ := h
+  ⟨rA, rB, h1, h2, h4, h6⟩
+/-- `program_block_expands_inside_task` applied to a MIXED block (task Boolean `-f`, core Boolean `-e`, the task's value flag
+    `-n` last): `t1 -fen zed` ≡ `t1 -f -e -n zed` -/
+example : (programParse coreCtx c18Reg (argvOf ["t1", "-fen", "zed"])).map ProgResult.eff =
+          (programParse coreCtx c18Reg (argvOf ["t1", "-f", "-e", "-n", "zed"])).map ProgResult.eff := by
+  have hn : NameOK (some coreCtx) "t1".toList := nameOKb_sound (by decide)
+  have h := program_block_expands_inside_task coreCtx coreCtx c18Reg [] "t1".toList [] ["zed".toList] 'f' ['e', 'n']
+    (by decide) (by decide) (by decide) (by decide) (coreStep0_nil coreCtx) (by decide) (by decide) (by decide) (by decide) (by decide)
+    (by decide) (by
+      intro m0 m1 h0 h1
+      rw [start_enter (some coreCtx) c18Reg false (fun p hp => by cases hp; decide)] at h0
+      have e0 : m0 = M.start (some coreCtx) c18Reg false := (Except.ok.inj h0).symm
+      subst e0
+      obtain ⟨m1', hrun, hr, _⟩ := first_switch (some coreCtx) c18Reg false "t1".toList (c18Reg.getD 1 (Ctx.empty none)) hn (by decide)
+      have hrun' : runToks (M.start (some coreCtx) c18Reg false) ["t1".toList] = .ok m1' := hrun
+      rw [hrun'] at h1
+      have e1 : m1 = m1' := (Except.ok.inj h1).symm
+      subst e1
+      exact splitsAsBlock_of_ready hr 'f' (Or.inl ⟨0, _, by decide, rfl, by decide⟩))
+  simpa [blockPieces, argvOf] using h
+/-- `core_optional_value_flag_placement` applied with the real core table (`list` = 8): glued `t1 -lsub --flag` vs
+    `-lsub t1 --flag`, and the `=` form after the task's own flag, `t1 --flag --list=sub` vs `--list=sub t1 --flag` -/
+example : ∃ rA rB,
+    programParse coreCtx c18Reg (argvOf ["t1", "-lsub", "--flag"]) = .ok rA ∧
+    programParse coreCtx c18Reg (argvOf ["-lsub", "t1", "--flag"]) = .ok rB ∧
+    rA.core.view = rB.core.view ∧ rB.tasks = rA.tasks :=
+  have h := core_optional_value_flag_placement coreCtx c18Reg [] plFlagCall [] plFlagCall.items [] "-l".toList "sub".toList _ 8
+    (coreCtx.args.getD 8 (Arg.init { names := [] })) _ (.glued 'l' 's' "ub".toList rfl rfl (by decide) (by decide)) rfl
+    (chainOKb_sound _ (by decide)) (by decide) (by decide) (by decide) (by decide) (by decide) (by decide) (by decide) (by decide)
+    (by decide) (by decide) (by decide) (by decide) (by decide) (by decide) (by decide) (by decide) (by decide) rfl (by decide)
+    (noSentinelB_sound (by decide)) (noSentinelB_sound (by decide))
+  let ⟨rA, rB, h1, h2, h3, _, _, h6, _⟩ := h
+  ⟨rA, rB, h1, h2, h3, h6⟩
+example : ∃ rA rB,
+    programParse coreCtx c18Reg (argvOf ["t1", "--flag", "--list=sub"]) = .ok rA ∧
+    programParse coreCtx c18Reg (argvOf ["--list=sub", "t1", "--flag"]) = .ok rB ∧
+    rA.core.view = rB.core.view ∧ rB.tasks = rA.tasks :=
+  have h := core_optional_value_flag_placement coreCtx c18Reg [] plFlagCall plFlagCall.items [] [] "--list".toList "sub".toList _ 8
+    (coreCtx.args.getD 8 (Arg.init { names := [] })) _ (.eq (flagTokB_sound (by decide))) (by simp)
+    (chainOKb_sound _ (by decide)) (by decide) (by decide) (by decide) (by decide) (by decide) (by decide) (by decide) (by decide)
+    (by decide) (by decide) (by decide) (by decide) (by decide) (by decide) (by decide) (by decide) (by decide) rfl (by decide)
+    (noSentinelB_sound (by decide)) (noSentinelB_sound (by decide))
+  let ⟨rA, rB, h1, h2, h3, _, _, h6, _⟩ := h
+  ⟨rA, rB, h1, h2, h3, h6⟩
+example : (programParse coreCtx c18Reg (argvOf ["t1", "--flag", "--list=sub"])).toOption.map
+    (fun r => r.core.valueOf "list".toList) = some (.s "sub".toList) := by decide
+
+/-- `core_optional_bare_then_core_flag_placement` applied: `t1 -l -e --flag` vs `-l -e t1 --flag` (list = 8, echo = 5) -/
+example : ∃ rA rB,
+    programParse coreCtx c18Reg (argvOf ["t1", "-l", "-e", "--flag"]) = .ok rA ∧
+    programParse coreCtx c18Reg (argvOf ["-l", "-e", "t1", "--flag"]) = .ok rB ∧
+    rA.core.view = rB.core.view ∧ overrides rA.core = overrides rB.core ∧ rB.tasks = rA.tasks :=
+  have h := core_optional_bare_then_core_flag_placement coreCtx c18Reg [] plFlagCall [] plFlagCall.items [] "-l".toList "-e".toList 8 5
+    (coreCtx.args.getD 8 (Arg.init { names := [] })) _ (coreCtx.args.getD 5 (Arg.init { names := [] })) _ rfl
+    (chainOKb_sound _ (by decide)) (unsplitB_sound (by decide)) (by decide) (by decide) (by decide) (by decide) (by decide) (by decide)
+    (by decide) (by decide) (by decide) (by decide) (by decide) rfl
+    (unsplitB_sound (by decide)) (by decide) (by decide) (by decide) (by decide) (by decide) (by decide) (by decide) (by decide)
+    (by decide) (by decide) rfl (by decide) (by decide)
+    (noSentinelB_sound (by decide)) (noSentinelB_sound (by decide))
+  let ⟨rA, rB, h1, h2, h3, h4, _, h6, _⟩ := h
+  ⟨rA, rB, h1, h2, h3, h4, h6⟩
+
+/-- `core_optional_bare_tied_off_partial` applied to the machine right after the task name `t1`; and the two whole-argv shapes
+    it is about, as instances: bare `-l` before a flag of the task, and bare `-l` as the very last token -/
+example : ∃ m ab, runToks (M.start (some coreCtx) c18Reg false) ["t1".toList] = .ok m ∧
+    (coreCtx.args.getD 8 (Arg.init { names := [] })).setValue (.b true) false = .ok ab ∧
+    Inert (m.withCore (coreCtx.setArg 8 ab) (some (.initial, 8)) false) ∧
+    ({ m with flag := some (.initial, 8), flagGotValue := false } : M).handle "--flag".toList =
+      (m.withCore (coreCtx.setArg 8 ab) (some (.initial, 8)) false).handle "--flag".toList := by
+  obtain ⟨m, hrun, hr, hi, _, hg, _⟩ := first_switch (some coreCtx) c18Reg false "t1".toList (c18Reg.getD 1 (Ctx.empty none))
+    (nameOKb_sound (by decide)) (by decide)
+  obtain ⟨h1, h2, _⟩ := core_optional_bare_tied_off_partial coreCtx c18Reg _ "--flag".toList 8
+    (coreCtx.args.getD 8 (Arg.init { names := [] })) _ m hr hi hg (by decide) (by decide) (by decide) (by decide) rfl
+  exact ⟨m, _, hrun, rfl, h1, h2 (by decide) (by decide) (by decide)⟩
+example :
+    (programParse coreCtx c18Reg (argvOf ["t1", "--flag", "-l"])).toOption.map
+      (fun r => (r.core.valueOf "list".toList, r.tasks.map (fun c => c.valueOf "flag".toList))) = some (.b true, [.b true]) ∧
+    effect (programParse coreCtx c18Reg (argvOf ["t1", "-l", "--flag"])) =
+      effect (programParse coreCtx c18Reg (argvOf ["t1", "--flag", "-l"])) := by decide
 end Inv
